@@ -48,6 +48,8 @@ public:
     qint64 rangeFrom;
     qint64 rangeTo;
 
+    bool stopped;
+
 public Q_SLOTS:
 
     void onReadyRead();
